@@ -158,6 +158,7 @@ def _cases(tier, seed):
         out.append({"k": "polyargs", "i": i})
     out.append({"k": "polyargs", "i": -1})
     out.append({"k": "three"})
+    out.append({"k": "digits"})
     out.append({"k": "twins"})
     out.append({"k": "magnitudes"})
     out.sort(key=lambda c: {"polyargs": 0, "pairs": 1, "arrays": 2}.get(c["k"], 3))
@@ -357,6 +358,25 @@ def run_case(case, R):
             exp = m.subs({n: V.const(v) for n, v in zip(sp["n"], vals)})
             judge_numeric(R, f"twin {i} {sp['n']} {sp['t']}{tuple(vals)}", lambda: p(*vals), exp, tuple(sp["s"]), ["twins"])
             judge_poly(R, f"twin {i} partial", lambda: p(**{sp["n"][-1]: 2}), m.subs({sp["n"][-1]: V.const(2)}), ["twins", "partial"])
+    elif k == "digits":
+        # names of which one is the other followed by more digits (q1 / q11, q2 / q21, q1 / q10 / q11) with exponents of one and two
+        # digits: every text built from a name and a number is ambiguous for them
+        for names in (("q1", "q11"), ("q2", "q21"), ("q1", "q10", "q11"), ("q1", "q12"), ("q3", "q30", "q31")):
+            kk = len(names)
+            for e1, e2 in itertools.product((1, 2, 10, 11, 12), (0, 1, 2, 10)):
+                t = [(tuple([e1] + [0] * (kk - 1)), 1), (tuple([0] * (kk - 1) + [e2 or 1]), 1), (tuple([e2] + [0] * (kk - 2) + [1]), -2)]
+                t = list({e_: c_ for e_, c_ in t}.items())
+                sp = space.scalar_spec(names, t)
+                p, m = build_checked(sp), model_of(sp)
+                vals = [2, 3, -1][:kk]
+                assign = {n_: V.const(v_) for n_, v_ in zip(names, vals)}
+                exp = m.subs(assign)
+                R.state(("digits", names, e1, e2))
+                judge_numeric(R, f"{names} {t} at {vals}", lambda: p(*vals), exp, (), ["digits"])
+                judge_numeric(R, f"{names} {t} at {vals} by keyword", lambda: p(**dict(zip(names, vals))), exp, (), ["digits"])
+                judge_numeric(R, f"{names} {t} at {vals} by keyword reversed", lambda: p(**dict(reversed(list(zip(names, vals))))), exp, (), ["digits"])
+                judge_poly(R, f"{names} {t} partial {names[0]}=2", lambda: p(**{names[0]: 2}), m.subs({names[0]: V.const(2)}), ["digits", "partial"])
+                judge_poly(R, f"{names} {t} partial {names[-1]}=3", lambda: p(**{names[-1]: 3}), m.subs({names[-1]: V.const(3)}), ["digits", "partial"])
     elif k == "three":
         names3 = ("q0", "q2", "q10")
         pool = [[((1, 0, 0), 1), ((0, 1, 1), -2)], [((0, 0, 2), 1), ((0, 0, 0), 3)], [((1, 1, 1), 1)], [((2, 0, 0), 1), ((0, 2, 0), -1), ((0, 0, 1), 2)]]
